@@ -866,6 +866,20 @@ func init() {
 				bo.PutUint32(h[5:], cnt)
 				return h
 			}
+			// (the member in the parent's byte order or in the other one; its type word plain, with stray bits in the low byte
+			// - readers mask the kind with 0x0f - or with the EWKB SRID flag)
+			ohdr := func(typ, cnt uint32) []byte { // the other byte order
+				h := make([]byte, 9)
+				var ob binary.ByteOrder = binary.LittleEndian
+				if le {
+					ob = binary.BigEndian
+				} else {
+					h[0] = 1
+				}
+				ob.PutUint32(h[1:], typ)
+				ob.PutUint32(h[5:], cnt)
+				return h
+			}
 			for _, ct := range []uint32{4, 5, 6, 7} {
 				for mt := uint32(1); mt <= 7; mt++ {
 					for _, mc := range []uint32{0, 1} {
@@ -874,6 +888,15 @@ func init() {
 								b := append(hdr(ct, cc), hdr(mt, mc)...)
 								b = append(b, make([]byte, k)...)
 								c05Raw(c, "wkb(member kinds)", b, wkbAll)
+								for _, stray := range []uint32{0x20, 0x10, 0x20000000, 0x20000020} {
+									for _, mh := range [][]byte{hdr(mt|stray, mc), ohdr(mt|stray, mc), ohdr(mt, mc)} {
+										if (k+int(mt)+int(stray>>4))%3 != 0 { // a third of the combinations
+											continue
+										}
+										b := append(hdr(ct, cc), mh...)
+										c05Raw(c, "wkb(member kinds)", append(b, make([]byte, k)...), wkbAll)
+									}
+								}
 							}
 						}
 					}
@@ -932,10 +955,41 @@ func init() {
 				for f := 0; f < 1+c.rng.Intn(4); f++ {
 					b = append(b, field()...)
 				}
-				if c.rng.Intn(3) == 0 { // ... inside a layer of a tile
+				switch c.rng.Intn(4) {
+				case 0: // ... inside a layer of a tile
+					b = append(append(varint(3<<3|2), varint(uint64(len(b)))...), b...)
+				case 1: // ... inside a feature of a layer of a tile (a feature's id is field 1, its tags 2, its geometry 4)
+					b = append(append(varint(2<<3|2), varint(uint64(len(b)))...), b...)
 					b = append(append(varint(3<<3|2), varint(uint64(len(b)))...), b...)
 				}
 				c05Raw(c, "mvt(wire)", b, c05MvtDecs)
+			}
+		}
+		// values that were encoded as text more than once (a hex dump of a hex dump, with the markers \x, 0x or none): every
+		// layer that a scanner takes off leaves a shorter value behind
+		{
+			enc := func(kind int, v []byte) []byte {
+				h := []byte(hex.EncodeToString(v))
+				switch kind {
+				case 0:
+					return append([]byte("\\x"), h...)
+				case 1:
+					return append([]byte("0x"), h...)
+				}
+				return h
+			}
+			for _, payload := range []string{"", "0", "0x", "00", "\\x", "01", "0X1", "\x01\x01\x00\x00\x00"} {
+				for k1 := 0; k1 < 3; k1++ {
+					v1 := enc(k1, []byte(payload))
+					c05Raw(c, "wkb(encoded twice)", v1, wkbAll)
+					for k2 := 0; k2 < 3; k2++ {
+						v2 := enc(k2, v1)
+						c05Raw(c, "wkb(encoded twice)", v2, wkbAll)
+						for k3 := 0; k3 < 3; k3++ {
+							c05Raw(c, "wkb(encoded twice)", enc(k3, v2), wkbAll)
+						}
+					}
+				}
 			}
 		}
 		// text that is almost WKT: the extended spellings other tools write (an SRID in front, a dimension suffix), complete
